@@ -59,8 +59,8 @@ ASSUMPTIONS = [
     "layer); such ops are skipped and counted otherwise",
 ]
 TIERS = {
-    "quick": {"per_shard": 1250, "max_ops": 40, "budget_s": 100},
-    "thorough": {"per_shard": 31250, "max_ops": 120, "budget_s": 1500},
+    "quick": {"per_shard": 1250, "max_ops": 40, "budget_s": 170},
+    "thorough": {"per_shard": 31250, "max_ops": 120, "budget_s": 840},
 }
 
 # ------------------------------------------------------------------------------------------------
